@@ -193,6 +193,10 @@ def project(ev, t, i, depth=0):
             return a
         if a is None or b is None:
             return None
+        from ..kfun import same
+
+        if a is b or same(a, b):
+            return a  # the component does not depend on the branch
         return T("if", t.node, t.mod, cond=t.cond, then=a, other=b)
     if t.op == "seq":
         return project(ev, t.value, i, depth + 1)
